@@ -287,9 +287,12 @@ def workload(ctx, lentil):
                 for bounds in ((None, None), (lo_, hi_)):
                     Ia = float(S(wn.copy(), vv.copy()).integrate(bounds[0], bounds[1], mth))
                     Ib = float(S(wn.astype(float), vv.astype(float)).integrate(bounds[0], bounds[1], mth))
+                    # (Simpson's rule on these non-uniform grids has weights of either sign: a result that has cancelled is measured
+                    # against the size of the integrand times the range, not against itself)
+                    nat = float(np.max(np.abs(vv.astype(float)))) * float(wn[-1] - wn[0]) if mth == 'simps' else 0.0
                     ctx.close('integrate:exact-pl', np.array([Ia]), np.array([Ib]), 1e-12, f'integrate|{tag}|{mth}',
                               'the integral over a wavelength grid held in single / half precision or an integer type differs from that over the same numbers as doubles',
-                              {'dtype': np.dtype(wf).name, 'method': mth, 'bounds': list(bounds)}, scale=abs(Ib) + 1e-300)
+                              {'dtype': np.dtype(wf).name, 'method': mth, 'bounds': list(bounds)}, scale=max(abs(Ib), nat) + 1e-300)
                     if mth == 'trapz':
                         L_, H_ = (float(wn[0]), float(wn[-1])) if bounds[0] is None else bounds
                         ex_ = sm.integral_pl(wn.astype(float), vv.astype(float), L_, H_)
